@@ -32,6 +32,7 @@ from lark import (
     UnexpectedEOF,
     ParseTree,
 )
+from lark.exceptions import VisitError
 
 from .types import Nil
 
@@ -427,12 +428,18 @@ class FcpV2Transformer(Transformer):
                 Token(_get_meta(tree, self)),
             )
 
-        fcp = FcpV2Transformer(
-            pathlib.Path(filename).resolve(),
-            self.parser_context,
-            self.filesystem_proxy,
-            self.error_logger,
-        ).transform(fcp_ast)
+        try:
+            fcp = FcpV2Transformer(
+                pathlib.Path(filename).resolve(),
+                self.parser_context,
+                self.filesystem_proxy,
+                self.error_logger,
+            ).transform(fcp_ast)
+        except VisitError as e:
+            return error(
+                f"Invalid definition in {filename.name}: {e.orig_exc}",
+                Token(_get_meta(tree, self)),
+            )
 
         self.fcp.merge(
             fcp.map_err(
@@ -576,9 +583,12 @@ def _get_fcp(
 
     parser_context = ParserContext()
 
-    fcp = FcpV2Transformer(
-        filename, parser_context, filesystem_proxy, logger
-    ).transform(fcp_ast)
+    try:
+        fcp = FcpV2Transformer(
+            filename, parser_context, filesystem_proxy, logger
+        ).transform(fcp_ast)
+    except VisitError as e:
+        return error(f"Invalid definition in {filename.name}: {e.orig_exc}")
 
     return Ok(fcp.attempt())
 
